@@ -1,9 +1,111 @@
-import MwVerif.Model.Metabook
+import MwVerif.Lemmas.Metabook.Norm
 import MwVerif.Gen.MetabookTables
 
+/-!
+# C13 — metabooks round-trip through JSON and identify collections deterministically
+
+`norm t j` is `dumps(loads(j), sort_keys=True)` on JSON values (Model/Metabook.lean), for the
+class tables `t` regenerated from mwlib.core.metabook by introspection.
+-/
 namespace MwVerif.Metabook
 
-/-- placeholder while the theorems are written. -/
-theorem c13_tables_loaded : MwVerif.Gen.mbTables.typeKey = MwVerif.Gen.mbTypeKey := rfl
+/-- **C13 (fixed point).**  Re-serialising is a fixed point, for *every* JSON value — also
+one that was not produced by mwlib: `dumps(loads(dumps(loads(x)))) = dumps(loads(x))`. -/
+theorem c13_fixpoint (t : Tables) (hw : TablesWF t) (j : J) : norm t (norm t j) = norm t j :=
+  norm_idem t hw j
+
+/-- **C13 (round trip).**  A metabook in serialised form (a value `dumps` produced) loads back
+to an object that dumps to the same value: same items, order, nesting, attributes. -/
+theorem c13_roundtrip (t : Tables) (hw : TablesWF t) (j j0 : J) (h : j = norm t j0) : norm t j = j := by
+  rw [h]; exact norm_idem t hw j0
+
+theorem normPairs_eq_map (t : Tables) : ∀ kv : List (Nat × J),
+    normPairs t kv = kv.map (fun e => (e.1, norm t e.2))
+  | [] => rfl
+  | (k, v) :: rest => by simp [normPairs, normPairs_eq_map t rest]
+
+theorem any_perm {α : Type} {l1 l2 : List α} (p : α → Bool) (h : l1.Perm l2) : l1.any p = l2.any p := by
+  induction h with
+  | nil => rfl
+  | cons x _ ih => simp [List.any_cons, ih]
+  | swap x y l => simp only [List.any_cons]; cases p x <;> cases p y <;> rfl
+  | trans _ _ ih1 ih2 => exact ih1.trans ih2
+
+theorem objectFields_perm (t : Tables) (cls : Nat) {kv kv' : List (Nat × J)} (hp : kv.Perm kv') :
+    (objectFields t cls kv).Perm (objectFields t cls kv') := by
+  rw [objectFields_eq, objectFields_eq]
+  refine List.Perm.cons _ (List.Perm.append ?_ (hp.filter _))
+  have : (fun d : Nat × J => !(kv.filter (keep t)).any (·.1 = d.1)) =
+      (fun d : Nat × J => !(kv'.filter (keep t)).any (·.1 = d.1)) := by
+    funext d; rw [any_perm _ (hp.filter (keep t))]
+  rw [this]
+
+/-- **C13 (key order).**  The order in which a JSON object lists its keys does not matter. -/
+theorem c13_key_order_invariant (t : Tables) (hw : TablesWF t) {kv kv' : List (Nat × J)}
+    (hp : kv.Perm kv') (hk : (kv.map (·.1)).Nodup) : norm t (.obj kv) = norm t (.obj kv') := by
+  simp only [norm]
+  have hp1 : (normPairs t kv).Perm (normPairs t kv') := by
+    rw [normPairs_eq_map, normPairs_eq_map]; exact hp.map _
+  have hk1 : ((normPairs t kv).map (·.1)).Nodup := by
+    rw [normPairs_eq_map]; simpa [List.map_map, Function.comp_def] using hk
+  have hk1' : ((normPairs t kv').map (·.1)).Nodup := (hp1.map _).nodup_iff.1 hk1
+  rw [dictOfPairs_of_nodup hk1, dictOfPairs_of_nodup hk1']
+  unfold finishObj
+  rw [classFor_perm hp1 hk1]
+  cases classFor t (normPairs t kv') with
+  | none => simp only []; rw [sortKeys_eq_of_perm hp1 hk1]
+  | some cls =>
+    simp only []
+    rw [sortKeys_eq_of_perm (objectFields_perm t cls hp1) (objectFields_nodup hw cls hk1)]
+
+/-- ... at any depth: the normal form of a container depends on its children only through
+their normal forms (so permuting keys inside nested articles/chapters does not matter
+either). -/
+theorem c13_congr_arr (t : Tables) {xs ys : List J} (h : normList t xs = normList t ys) :
+    norm t (.arr xs) = norm t (.arr ys) := by simp only [norm, h]
+
+theorem c13_congr_obj (t : Tables) {kv kv' : List (Nat × J)} (h : normPairs t kv = normPairs t kv') :
+    norm t (.obj kv) = norm t (.obj kv') := by simp only [norm, h]
+
+/-- **C13 (the id depends only on content and wiki coordinates).**  Requests whose metabooks
+have the same normal form (any key order, whitespace, re-serialisation) and the same wiki
+coordinates have the same id preimage ... -/
+theorem c13_id_invariant (t : Tables) (r r' : Request) (hm : norm t r.metabook = norm t r'.metabook)
+    (h1 : r.version = r'.version) (h2 : r.baseUrl = r'.baseUrl) (h3 : r.scriptExt = r'.scriptExt)
+    (h4 : r.login = r'.login) : idPreimage t r = idPreimage t r' := by
+  simp [idPreimage, hm, h1, h2, h3, h4]
+
+/-- ... in particular re-serialising the metabook does not change it. -/
+theorem c13_id_reserialise (t : Tables) (hw : TablesWF t) (r : Request) :
+    idPreimage t { r with metabook := norm t r.metabook } = idPreimage t r := by
+  simp [idPreimage, norm_idem t hw]
+
+/-- **C13 (separation).**  ... and whenever the wiki URL differs, or the serialised metabooks
+differ (an article, a revision, the order, a title — anything `dumps` shows), the preimages
+differ; the id is their SHA-256, so ids differ up to hash collisions. -/
+theorem c13_id_separates (t : Tables) (r r' : Request)
+    (h : r.baseUrl ≠ r'.baseUrl ∨ r.scriptExt ≠ r'.scriptExt ∨ r.login ≠ r'.login ∨
+      norm t r.metabook ≠ norm t r'.metabook) : idPreimage t r ≠ idPreimage t r' := by
+  intro e
+  simp only [idPreimage, Prod.mk.injEq] at e
+  obtain ⟨_, e2, e3, e4, e5⟩ := e
+  rcases h with h | h | h | h
+  · exact h e2
+  · exact h e3
+  · exact h e4
+  · exact h e5
+
+/-- distinct serialised metabooks are distinct normal forms (`norm` is the identity on them). -/
+theorem c13_serialised_distinct (t : Tables) (hw : TablesWF t) (j j' a a' : J)
+    (hj : j = norm t a) (hj' : j' = norm t a') (hne : j ≠ j') : norm t j ≠ norm t j' := by
+  rw [c13_roundtrip t hw j a hj, c13_roundtrip t hw j' a' hj']; exact hne
+
+/-! ### the generated class tables (regenerated from /repo on this run) are well-formed -/
+
+theorem c13_generated_tables_wf : TablesWF Gen.mbTables :=
+  checkTables_sound (by decide)
+
+theorem c13_fixpoint_mwlib (j : J) : norm Gen.mbTables (norm Gen.mbTables j) = norm Gen.mbTables j :=
+  c13_fixpoint _ c13_generated_tables_wf j
 
 end MwVerif.Metabook
